@@ -5,5 +5,6 @@ CONSTANTS
   Space = "q2"
   Modes = {"E"}
   EmitCases = TRUE
+  PeekBudget = 0
 INVARIANTS Inv_Ctx Inv_End Inv_Conform
 CHECK_DEADLOCK FALSE
